@@ -32,7 +32,12 @@ CONSTANTS
     IgnoreSets,    \* sets of line indices that may carry an ignore comment
     MaxYields,
     NGroups,
-    MaxIter        \* max_iter of fix (5) / chain (10)
+    MaxIter,       \* max_iter of fix (5) / chain (10)
+    Dedent,        \* the rank of the "same text, re-indented" replacement (0 if unused)
+    WsUnits,       \* units that consist of whitespace only (indentation, line ends)
+    Forbidden      \* <<lo, hi, new>> combinations the generator leaves out (they trigger the layout repairs
+                   \* of _do_rewrite - `pass` insertion, skipping of whitespace-only changes - which are not
+                   \* part of the scheduling property)
 
 Auto == -1                     \* "no transaction given"
 AutoBase == -100000000         \* default_transaction["count"] starts here
@@ -62,6 +67,12 @@ Rng(r) == <<r.lo, r.hi>>
 
 Orig == [u \in 1..NUnits |-> u]            \* token u > 0 is original unit u
 Tok(new) == IF new = 0 THEN <<>> ELSE << -new >>   \* token -n is the replacement with rank n
+\* the text a rewrite puts in place of its range.  The Dedent replacement re-emits the non-blank
+\* units of the range itself: the same code with its indentation removed (a layout-only rewrite,
+\* which _do_rewrite must still apply when it is part of a transaction).
+TokR(r) == IF r.new = Dedent /\ Dedent # 0
+             THEN SelectSeq([i \in 1..(r.hi - r.lo) |-> r.lo + i], LAMBDA u : u \notin WsUnits)
+             ELSE Tok(r.new)
 
 TouchesIgnored(r) == \E l \in ignored : Overlaps(Rng(r), l)
 
@@ -114,6 +125,7 @@ AddYield ==
     /\ Len(yields) < MaxYields
     /\ \E g \in 1..NGroups, r \in RangeSet, n \in Payloads, t \in ExplicitTxns \cup {Auto} :
           /\ (Len(yields) > 0 => g >= yields[Len(yields)].g)
+          /\ <<r[1], r[2], n>> \notin Forbidden
           /\ yields' = Append(yields, MkYield(g, r, n, t))
     /\ UNCHANGED <<ignored, pc, k, ng, present, queue, scheduled, dropped, order, ai, work, result, rolled>>
 
@@ -198,7 +210,7 @@ ApplyNext ==
     /\ pc = "apply"
     /\ ai <= Len(order)
     /\ LET r == order[ai] IN
-         work' = SubSeq(work, 1, r.lo) \o Tok(r.new) \o SubSeq(work, r.hi + 1, Len(work))
+         work' = SubSeq(work, 1, r.lo) \o TokR(r) \o SubSeq(work, r.hi + 1, Len(work))
     /\ ai' = ai + 1
     /\ UNCHANGED <<yields, ignored, pc, k, ng, present, queue, scheduled, dropped, order, result, rolled>>
 
@@ -273,14 +285,33 @@ InsLess(a, b) == a.new < b.new \/ (a.new = b.new /\ KeyLess(a.t, b.t))
 RECURSIVE Emit(_, _)
 Emit(p, S) ==
     LET ins == SetToSortSeq({r \in S : r.lo = p /\ r.hi = p}, InsLess)
-        insToks == FlattenSeq([j \in 1..Len(ins) |-> Tok(ins[j].new)])
+        insToks == FlattenSeq([j \in 1..Len(ins) |-> TokR(ins[j])])
         rep == {r \in S : r.lo = p /\ r.hi > p}
     IN IF rep # {}
          THEN LET r == CHOOSE r \in rep : TRUE
-              IN insToks \o Tok(r.new) \o Emit(r.hi, S \ ({r} \cup {q \in S : q.lo = p /\ q.hi = p}))
+              IN insToks \o TokR(r) \o Emit(r.hi, S \ ({r} \cup {q \in S : q.lo = p /\ q.hi = p}))
        ELSE IF p >= NUnits THEN insToks
        ELSE insToks \o <<p + 1>> \o Emit(p + 1, S)
 Splice(S) == Emit(0, S)
+
+\* ---- the declarative clauses for an ARBITRARY set A of whole transactions (used to judge observed outcomes) ----
+RwOf(A) == UNION {{[t |-> t, lo |-> a.lo, hi |-> a.hi, new |-> a.new] : a \in RwSet(t)} : t \in A}
+
+NoOverlapIn(A) ==
+    /\ \A t \in A : ~SelfOverlap(t)
+    /\ \A a, b \in RwOf(A) : (a.t # b.t) => ~Overlaps(Rng(a), Rng(b))
+
+\* literal reading of the statement: a drop is justified by ANY transaction with precedence
+JustifiedWrt(t, A) ==
+    \/ SelfOverlap(t)
+    \/ KeyIgnored(t)
+    \/ \E u \in AllKeys : KeyLess(u, t) /\ EqSeq(u) = EqSeq(t)
+    \/ \E u \in AllKeys : KeyLess(u, t) /\
+           \E a \in RwSet(t), b \in RwSet(u) : Overlaps(Rng(a), Rng(b))
+
+\* every outcome the statement admits: the splice of an admissible set of whole transactions
+Admissible(A) == NoOverlapIn(A) /\ (\A t \in AllKeys \ A : JustifiedWrt(t, A)) /\ (\A t \in A : ~KeyIgnored(t))
+AdmissibleSplices == {Splice(RwOf(A)) : A \in {B \in SUBSET AllKeys : Admissible(B)}}
 
 \* while applying in reverse position order the prefix not yet reached is untouched
 OffsetsStable ==
